@@ -77,6 +77,17 @@ const (
 	KSuicide2     TxKind = "suicide-multidenom"
 	KInvalid      TxKind = "invalid-op"
 	KOutOfGas     TxKind = "out-of-gas"
+	// KErc20Burn / KErc20Transfer call the ERC-20 precompile of the native denom (world must have DeployErc20): burn(5) / transfer(sink, 3)
+	KErc20Burn     TxKind = "erc20-burn"
+	KErc20Transfer TxKind = "erc20-transfer"
+	// KCreateValueHigh is a contract creation whose endowment the sender cannot afford (refused after admission)
+	KCreateValueHigh TxKind = "create-value-too-high"
+)
+
+// Erc20BurnAmount / Erc20TransferAmount are the amounts moved by the two precompile kinds.
+const (
+	Erc20BurnAmount     = 5
+	Erc20TransferAmount = 3
 )
 
 // FeeKind selects fee fields relative to the base fee b.
@@ -112,7 +123,7 @@ func DefaultGas(k TxKind) uint64 {
 		return 20999
 	case KBurn:
 		return 70000
-	case KCreateOK, KCreateFail:
+	case KCreateOK, KCreateFail, KCreateValueHigh:
 		return 200000
 	case KCosmosSend:
 		return 200000
@@ -173,6 +184,20 @@ func BuildTx(w *world.World, s TxSpec, b *big.Int) []byte {
 		data = createOKInit()
 	case KCreateFail:
 		data = createFailInit()
+	case KCreateValueHigh:
+		data = createOKInit()
+		value = new(big.Int).Mul(big.NewInt(1000), new(big.Int).Exp(big.NewInt(10), big.NewInt(18), nil))
+	case KErc20Burn, KErc20Transfer:
+		tok := w.App.CPCKeeper.GetErc20CustomPrecompiledContractAddressByMinDenom(w.Ctx(), world.Denom)
+		if len(tok) == 0 {
+			panic("world has no ERC-20 precompile for the native denom (Config.DeployErc20)")
+		}
+		set(common.BytesToAddress(tok.Bytes()))
+		if s.Kind == KErc20Burn {
+			data = Enc("burn(uint256)", Word(big.NewInt(Erc20BurnAmount)))
+		} else {
+			data = Enc("transfer(address,uint256)", AddrWord(AddrSink), Word(big.NewInt(Erc20TransferAmount)))
+		}
 	default:
 		panic("unknown kind " + s.Kind)
 	}
